@@ -52,6 +52,35 @@ theorem measure_setTask (s : St) (i : Nat) (old new : Task) (h : s.tasks[i]? = s
   simp only
   omega
 
+theorem measure_setCond (s : St) (k : Nat) (old new : Cond) (h : s.conds[k]? = some old) :
+    measure { s with conds := s.conds.set k new } + cw old = measure s + cw new := by
+  have := sum_map_set cw s.conds k new old h
+  unfold measure
+  simp only
+  omega
+
+theorem lt_of_getElem? {α : Type} {l : List α} {i : Nat} {x : α} (h : l[i]? = some x) : i < l.length := by
+  rcases Nat.lt_or_ge i l.length with hl | hl
+  · exact hl
+  · rw [List.getElem?_eq_none hl] at h; cases h
+
+/-- replacing task `t` by one with the same program and `done` flag keeps `TaskAt` -/
+theorem taskAt_setTask (s : St) (t i : Nat) (p : List Instr) (old new : Task) (ht : s.tasks[t]? = some old)
+    (hp : new.prog = old.prog) (hd : new.done = old.done) (h : TaskAt s i p) :
+    TaskAt { s with tasks := s.tasks.set t new } i p := by
+  obtain ⟨tk', h1, h2, h3⟩ := h
+  unfold TaskAt
+  simp only [List.getElem?_set]
+  by_cases hti : t = i
+  · subst hti
+    have hlt := lt_of_getElem? ht
+    rw [ht] at h1; cases h1
+    exact ⟨new, by simp [hlt], hp.trans h2, hd.trans h3⟩
+  · exact ⟨tk', by simp [hti, h1], h2, h3⟩
+
+theorem taskAt_conds (s : St) (cs : List Cond) (i : Nat) (p : List Instr) (h : TaskAt s i p) :
+    TaskAt { s with conds := cs } i p := h
+
 theorem measure_spawnTask (s : St) (t : Nat) : measure (spawnTask s t) ≤ measure s + 1 := by
   unfold spawnTask
   split
@@ -72,27 +101,46 @@ theorem taskAt_spawnTask (s : St) (t i : Nat) (p : List Instr) (h : TaskAt s i p
   · rename_i tk ht
     split
     · exact h
-    · obtain ⟨tk', h1, h2, h3⟩ := h
-      unfold TaskAt
+    · unfold TaskAt
       rw [tasks_enqueue]
-      simp only [List.getElem?_set]
-      by_cases hti : t = i
-      · subst hti
-        have hlt : t < s.tasks.length := by
-          rcases Nat.lt_or_ge t s.tasks.length with hl | hl
-          · exact hl
-          · rw [List.getElem?_eq_none hl] at ht; cases ht
-        rw [ht] at h1; cases h1
-        exact ⟨{ tk with started := true }, by simp [hlt], h2, h3⟩
-      · exact ⟨tk', by simp [hti, h1], h2, h3⟩
+      exact taskAt_setTask s t i p tk _ ht rfl rfl h
+
+theorem measure_grant (s : St) (wk : Kind) (wi : Nat) : measure (grant s wk wi) = measure s + 1 := by
+  unfold grant
+  split
+  · exact measure_enqueue _ _ _
+  · rename_i tk h
+    rw [measure_enqueue]
+    have := measure_setTask s wi tk { tk with granted := true } h
+    have e : tw { tk with granted := true } = tw tk := rfl
+    omega
+
+theorem taskAt_grant (s : St) (wk : Kind) (wi i : Nat) (p : List Instr) (h : TaskAt s i p) :
+    TaskAt (grant s wk wi) i p := by
+  unfold grant
+  split
+  · unfold TaskAt; rw [tasks_enqueue]; exact h
+  · rename_i tk ht
+    unfold TaskAt
+    rw [tasks_enqueue]
+    exact taskAt_setTask s wi i p tk _ ht rfl rfl h
 
 theorem measure_wakeCond (s : St) (k : Nat) : measure (wakeCond s k) ≤ measure s + 1 := by
   unfold wakeCond
   split
   · omega
-  · split
-    · exact Nat.le_succ _
-    · rw [measure_enqueue]; exact Nat.le_refl _
+  · rename_i c hc
+    split
+    · rename_i hw
+      have := measure_setCond s k c { c with permits := if c.cap1 then 1 else c.permits + 1 } hc
+      have e : cw { c with permits := if c.cap1 then 1 else c.permits + 1 } = cw c := rfl
+      omega
+    · rename_i wk wi r hw
+      rw [measure_grant]
+      have := measure_setCond s k c { c with waiters := r } hc
+      have e1 : cw c = r.length + 1 := by unfold cw; rw [hw]; simp
+      have e2 : cw { c with waiters := r } = r.length := rfl
+      omega
 
 theorem taskAt_wakeCond (s : St) (k i : Nat) (p : List Instr) (h : TaskAt s i p) :
     TaskAt (wakeCond s k) i p := by
@@ -101,7 +149,47 @@ theorem taskAt_wakeCond (s : St) (k i : Nat) (p : List Instr) (h : TaskAt s i p)
   · exact h
   · split
     · exact h
-    · unfold TaskAt; rw [tasks_enqueue]; exact h
+    · exact taskAt_grant _ _ _ _ _ h
+
+theorem measure_grantAll : ∀ (l : List (Kind × Nat)) (s : St), measure (grantAll l s) = measure s + l.length := by
+  intro l
+  induction l with
+  | nil => intro s; rfl
+  | cons a l ih =>
+    intro s
+    obtain ⟨wk, wi⟩ := a
+    simp only [grantAll, List.length_cons]
+    rw [ih, measure_grant]
+    omega
+
+theorem taskAt_grantAll (i : Nat) (p : List Instr) :
+    ∀ (l : List (Kind × Nat)) (s : St), TaskAt s i p → TaskAt (grantAll l s) i p := by
+  intro l
+  induction l with
+  | nil => intro s h; exact h
+  | cons a l ih =>
+    intro s h
+    obtain ⟨wk, wi⟩ := a
+    simp only [grantAll]
+    exact ih _ (taskAt_grant _ _ _ _ _ h)
+
+theorem measure_wakeAll (s : St) (k : Nat) : measure (wakeAll s k) ≤ measure s + 1 := by
+  unfold wakeAll
+  split
+  · omega
+  · rename_i c hc
+    rw [measure_grantAll]
+    have := measure_setCond s k c { c with waiters := [] } hc
+    have e1 : cw c = c.waiters.length := rfl
+    have e2 : cw { c with waiters := [] } = 0 := rfl
+    omega
+
+theorem taskAt_wakeAll (s : St) (k i : Nat) (p : List Instr) (h : TaskAt s i p) :
+    TaskAt (wakeAll s k) i p := by
+  unfold wakeAll
+  split
+  · exact h
+  · exact taskAt_grantAll i p _ _ h
 
 theorem measure_setProg (s : St) (i : Nat) (p r : List Instr) (h : TaskAt s i p) :
     measure (setProg s i r) + (p.map iw).sum = measure s + (r.map iw).sum := by
@@ -109,18 +197,15 @@ theorem measure_setProg (s : St) (i : Nat) (p r : List Instr) (h : TaskAt s i p)
   unfold setProg
   rw [h1]
   have := measure_setTask s i tk { tk with prog := r } h1
-  have e1 : tw tk = 1 + (p.map iw).sum := by unfold tw; simp [h3, h2]
-  have e2 : tw { tk with prog := r } = 1 + (r.map iw).sum := by unfold tw; simp [h3]
+  have e1 : tw tk = 1 + (p.map iw).sum + jw tk := by unfold tw; simp [h3, h2]
+  have e2 : tw { tk with prog := r } = 1 + (r.map iw).sum + jw tk := by unfold tw; simp [h3]; rfl
   simp only at this ⊢
   omega
 
 theorem taskAt_setProg (s : St) (i : Nat) (p r : List Instr) (h : TaskAt s i p) :
     TaskAt (setProg s i r) i r := by
   obtain ⟨tk, h1, h2, h3⟩ := h
-  have hlt : i < s.tasks.length := by
-    rcases Nat.lt_or_ge i s.tasks.length with hl | hl
-    · exact hl
-    · rw [List.getElem?_eq_none hl] at h1; cases h1
+  have hlt := lt_of_getElem? h1
   unfold setProg
   rw [h1]
   exact ⟨{ tk with prog := r }, by simp [hlt], rfl, h3⟩
@@ -131,12 +216,15 @@ theorem measure_finish (s : St) (i : Nat) (p : List Instr) (h : TaskAt s i p) :
   unfold finish
   rw [h1]
   have := measure_setTask s i tk { tk with done := true, prog := [] } h1
-  have e1 : 1 ≤ tw tk := by unfold tw; simp [h3]
+  have e1 : 1 + jw tk ≤ tw tk := by unfold tw; simp [h3]
   have e2 : tw { tk with done := true, prog := [] } = 0 := by unfold tw; simp
   simp only at this ⊢
   split
   · omega
-  · rw [measure_enqueue]; omega
+  · rename_i hj
+    rw [measure_enqueue]
+    have : jw tk = 1 := by unfold jw; simp [hj]
+    omega
 
 /-- a poll never increases the measure (the popped queue entry is what makes it decrease) -/
 theorem measure_runProg (k : Kind) (i : Nat) :
@@ -151,6 +239,15 @@ theorem measure_runProg (k : Kind) (i : Nat) :
     intro c rdy org s h
     have hs := measure_setProg s i (ins :: r) r h
     have ht := taskAt_setProg s i (ins :: r) r h
+    -- consume the instruction, log, continue
+    have hcont : ∀ (c' : Nat) (s1 : St), TaskAt s1 i (ins :: r) → measure s1 = measure s → 2 ≤ iw ins →
+        measure (runProg k i r c' s.now s.phase (logAt (setProg s1 i r) i rdy org)) ≤ measure s := by
+      intro c' s1 h1 hm hw
+      have hs1 := measure_setProg s1 i (ins :: r) r h1
+      have h2 := ih c' s.now s.phase (logAt (setProg s1 i r) i rdy org) (taskAt_setProg s1 i (ins :: r) r h1)
+      rw [measure_logAt] at h2
+      simp only [List.map_cons, List.sum_cons] at hs1
+      omega
     cases ins with
     | spawn t =>
       simp only [runProg]
@@ -164,6 +261,12 @@ theorem measure_runProg (k : Kind) (i : Nat) :
       have h3 := measure_wakeCond (setProg s i r) q
       simp [iw] at hs
       omega
+    | notifyAll q =>
+      simp only [runProg]
+      have h2 := ih c rdy org _ (taskAt_wakeAll _ q i r ht)
+      have h3 := measure_wakeAll (setProg s i r) q
+      simp [iw] at hs
+      omega
     | yield =>
       simp only [runProg]
       rw [measure_defer]
@@ -172,10 +275,7 @@ theorem measure_runProg (k : Kind) (i : Nat) :
       omega
     | resume =>
       simp only [runProg]
-      have h2 := ih c s.now s.phase (logAt (setProg s i r) i rdy org) ht
-      rw [measure_logAt] at h2
-      simp [iw] at hs
-      omega
+      exact hcont c s h rfl (by simp [iw])
     | wait q =>
       simp only [runProg]
       split
@@ -184,15 +284,34 @@ theorem measure_runProg (k : Kind) (i : Nat) :
         split
         · exact Nat.le_refl _
         · split
-          · exact Nat.le_refl _
-          · have ht' : TaskAt { s with conds := s.conds.set q { cd with permits := cd.permits - 1 } } i (.wait q :: r) := h
-            have hs' := measure_setProg _ i (.wait q :: r) r ht'
-            have ht2 := taskAt_setProg _ i (.wait q :: r) r ht'
-            have h2 := ih (if cd.coop then c - 1 else c) s.now s.phase (logAt (setProg _ i r) i rdy org) ht2
-            rw [measure_logAt] at h2
-            have e : measure { s with conds := s.conds.set q { cd with permits := cd.permits - 1 } } = measure s := rfl
-            simp [iw] at hs'
+          · -- block: register as a waiter
+            have ht' : TaskAt { s with conds := s.conds.set q { cd with waiters := cd.waiters ++ [(k, i)] } } i
+                (.wait q :: r) := h
+            have h1 := measure_setProg _ i (.wait q :: r) (.waiting q :: r) ht'
+            have h2 := measure_setCond s q cd { cd with waiters := cd.waiters ++ [(k, i)] } hc
+            have e : cw { cd with waiters := cd.waiters ++ [(k, i)] } = cw cd + 1 := by unfold cw; simp
+            simp [iw] at h1
             omega
+          · have ht' : TaskAt { s with conds := s.conds.set q { cd with permits := cd.permits - 1 } } i
+                (.wait q :: r) := h
+            have h2 := measure_setCond s q cd { cd with permits := cd.permits - 1 } hc
+            have e : cw { cd with permits := cd.permits - 1 } = cw cd := rfl
+            exact hcont _ _ ht' (by omega) (by simp [iw])
+    | waiting q =>
+      simp only [runProg]
+      generalize condCoop s q = coop
+      split
+      · exact Nat.le_refl _
+      · rename_i tk htk
+        split
+        · exact Nat.le_refl _
+        · split
+          · have ht' : TaskAt { s with tasks := s.tasks.set i { tk with granted := false } } i (.waiting q :: r) :=
+              taskAt_setTask s i i _ tk _ htk rfl rfl h
+            have h2 := measure_setTask s i tk { tk with granted := false } htk
+            have e : tw { tk with granted := false } = tw tk := rfl
+            exact hcont _ _ ht' (by omega) (by simp [iw])
+          · exact Nat.le_refl _
     | join t =>
       simp only [runProg]
       split
@@ -201,13 +320,32 @@ theorem measure_runProg (k : Kind) (i : Nat) :
         split
         · exact Nat.le_refl _
         · split
-          · have h2 := ih (c - 1) s.now s.phase (logAt (setProg s i r) i rdy org) ht
-            rw [measure_logAt] at h2
-            simp [iw] at hs
-            omega
-          · have := measure_setTask s t tj { tj with joiner := some (k, i) } hj
-            have e : tw { tj with joiner := some (k, i) } = tw tj := rfl
-            omega
+          · exact Nat.le_refl _
+          · split
+            · exact hcont _ s h rfl (by simp [iw])
+            · -- register the JoinHandle's waker
+              rename_i hnd
+              have ht' : TaskAt { s with tasks := s.tasks.set t { tj with joiner := some (k, i) } } i (.join t :: r) :=
+                taskAt_setTask s t i _ tj _ hj rfl rfl h
+              have h1 := measure_setProg _ i (.join t :: r) (.joining t :: r) ht'
+              have h2 := measure_setTask s t tj { tj with joiner := some (k, i) } hj
+              have e : tw { tj with joiner := some (k, i) } ≤ tw tj + 1 := by
+                unfold tw jw
+                simp only
+                split
+                · omega
+                · split <;> simp <;> omega
+              simp [iw] at h1
+              omega
+    | joining t =>
+      simp only [runProg]
+      split
+      · exact Nat.le_refl _
+      · split
+        · exact Nat.le_refl _
+        · split
+          · exact hcont _ s h rfl (by simp [iw])
+          · exact Nat.le_refl _
     | sleep d =>
       simp only [runProg]
       split
@@ -215,10 +353,7 @@ theorem measure_runProg (k : Kind) (i : Nat) :
         have := measure_setProg s i (.sleep d :: r) (.sleeping (s.now + d) :: r) h
         simp [iw] at this
         omega
-      · have h2 := ih c s.now s.phase (logAt (setProg s i r) i rdy org) ht
-        rw [measure_logAt] at h2
-        simp [iw] at hs
-        omega
+      · exact hcont c s h rfl (by simp [iw])
     | sleepUntil t =>
       simp only [runProg]
       split
@@ -226,18 +361,12 @@ theorem measure_runProg (k : Kind) (i : Nat) :
         have := measure_setProg s i (.sleepUntil t :: r) (.sleeping t :: r) h
         simp [iw] at this
         omega
-      · have h2 := ih c s.now s.phase (logAt (setProg s i r) i rdy org) ht
-        rw [measure_logAt] at h2
-        simp [iw] at hs
-        omega
+      · exact hcont c s h rfl (by simp [iw])
     | sleeping t =>
       simp only [runProg]
       split
       · exact Nat.le_refl _
-      · have h2 := ih c s.now s.phase (logAt (setProg s i r) i rdy org) ht
-        rw [measure_logAt] at h2
-        simp [iw] at hs
-        omega
+      · exact hcont c s h rfl (by simp [iw])
 
 theorem measure_markPolled (s : St) (i : Nat) : measure (markPolled s i) = measure s := by
   unfold markPolled
